@@ -356,7 +356,7 @@ fn arg_pat_mode(t: Ty, prefix: String, structural: bool, allow_eq: bool) -> Boxe
 pub const RULE: &str = "programs = generated `matching!` invocations over 0-4 arguments typed from {u8, bool, char, &str, String, newtype with AsRef<str>, Option<u8>, (u8,u8), enum with unit/tuple/struct variants, struct, Vec<u8>, &[u8]}: literals, ranges, wildcards, bindings, @-bindings, or-patterns, Option/tuple/struct/enum patterns, slice patterns with rest, string literals against &str/String/newtypes, eq!/ne!, 1-3 top-level alternatives, guards over bound variables, simple and parenthesized forms, matching!(); each evaluated on EVERY tuple of the finite product domain (<= 300 tuples) in unordered (diagnostics off) and ordered (diagnostics on) evaluation. Oracle: the generator's own pattern interpreter; for patterns without AsRef coercion a native Rust match in the generated program cross-checks the interpreter. Non-trivial = >= 2 constructs among {or, guard, eq!, ne!, alternatives, slice rest, coercion, @-binding, range, nested structure} and the pattern accepts some tuples and rejects others; distinct = distinct pattern";
 
 fn spec<'a>() -> Spec<'a, MatchCase> {
-    Spec { project: "C06", prelude: PRELUDE, source: &source, judge: &judge, nbins: 16, max_shrink_steps: 30 }
+    Spec { project: "C06", prelude: PRELUDE, source: &source, judge: &judge, nbins: 16, max_shrink_steps: 30, extra_deps: "" }
 }
 
 pub fn run(ctx: &Ctx) -> Verdict {
